@@ -1,4 +1,5 @@
 """C14 - repetition counting and the chain's outcome follow the game history."""
+from . import shared
 from . import chainrules, hashrules
 
 
@@ -21,3 +22,4 @@ def run(ctx):
     chainrules.auto_outcome_rule(ctx, facts, "R2a")
     chainrules.repeat_pairing_rule(ctx, facts, "R3")
     hashrules.key_distinct_rule(ctx, facts, "R4")
+    shared.hash_component(ctx, facts, "R5", "repetitions are counted by the incremental hash: equal positions must carry equal hashes")
